@@ -291,7 +291,47 @@ fn kdf_case(g: &mut Gen, ctx: &mut Ctx) -> CaseResult {
     Ok(())
 }
 
+/// Copies of decoded values (Clone::clone and Clone::clone_from over a previously decoded value
+/// whose retained bytes are longer, shorter or equal) carry the source's bytes.
+fn copy_case(g: &mut Gen, ctx: &mut Ctx) -> CaseResult {
+    let mut decoded = vec![];
+    for _ in 0..2 {
+        let item = gen_msg(g, Kind::Sign1, &mut Faults::none(), 1);
+        let (bytes, enc) = styled(&item, g, StyleOpts::ALL);
+        if m_msg(Kind::Sign1, &enc, &mut MCtx::default()).is_err() {
+            return Ok(());
+        }
+        decoded.push(CoseSign1::from_slice(&bytes).map_err(|e| format!("valid COSE_Sign1 rejected: {:?}", e))?);
+    }
+    let (a, b) = (decoded.remove(0), decoded.remove(0));
+    let (wa, wb) = (wire(&a.protected)?.clone(), wire(&b.protected)?.clone());
+    ctx.classf(format!("copy:{}", if wa.len() > wb.len() { "dst-longer" } else if wa.len() < wb.len() { "dst-shorter" } else { "same-length" }));
+    if wa != wb {
+        ctx.nontrivial(hash_str(&format!("copy|{}|{}", hex_trunc(&wa, 200), hex_trunc(&wb, 200))));
+        ctx.sample_with(|| format!("clone_from: destination retained {} <- source retained {}", hex_trunc(&wa, 24), hex_trunc(&wb, 24)));
+    }
+    let aad = g.small_bytes();
+    // the protected header alone
+    let mut p = a.protected.clone();
+    p.clone_from(&b.protected);
+    ensure!(same(&p, &b.protected), "ProtectedHeader::clone_from yields {:?}, source is {:?}", p, b.protected);
+    let t = sig_structure_data(SignatureContext::CoseSign1, p, None, &aad, b"p");
+    check_in("Sig_structure of a clone_from copy", &t, 1, &b.protected)?;
+    // the whole message
+    let mut m = a.clone();
+    m.clone_from(&b);
+    let (out, want) = (m.clone().to_vec().map_err(|e| format!("{:?}", e))?, b.clone().to_vec().map_err(|e| format!("{:?}", e))?);
+    ensure!(out == want, "a clone_from copy encodes as {} but its source as {}", hex_trunc(&out, 200), hex_trunc(&want, 200));
+    check_in("tbs_data of a clone_from copy", &m.tbs_data(&aad), 1, &b.protected)?;
+    let c = b.clone();
+    check_in("tbs_data of a clone", &c.tbs_data(&aad), 1, &b.protected)?;
+    Ok(())
+}
+
 fn case(g: &mut Gen, ctx: &mut Ctx) -> CaseResult {
+    if g.ratio(1, 12) {
+        return copy_case(g, ctx);
+    }
     if g.ratio(1, 8) {
         kdf_case(g, ctx)
     } else {
@@ -306,7 +346,7 @@ pub fn property() -> Property {
         title: "Protected-header bytes are kept and reused bit-for-bit, never re-encoded",
         rule: "valid messages of all eight structures with nesting <= 3 (signers, recipients, counter-signatures in protected and unprotected headers) and KDF contexts / SuppPubInfo, protected headers as h'', wrapped empty map or wrapped header map, \
                everything encoded in two independently drawn styles (head widths, indefinite lengths for maps, arrays, strings and the outer byte string itself, bignum integers, key order as generated); \
-               oracle: retained bytes == wire bytes at every position; re-encoding carries the same bytes in every protected slot (strict reader); element 1 (and 2 for signers) of every to-be-signed / MACed / additional-data structure and closure argument == wire bytes; parsed views equal across styles; \
+               oracle: retained bytes == wire bytes at every position; re-encoding carries the same bytes in every protected slot (strict reader); element 1 (and 2 for signers) of every to-be-signed / MACed / additional-data structure and closure argument == wire bytes; parsed views equal across styles; Clone::clone / clone_from copies of decoded values carry the source's bytes; \
                non-trivial = top-level protected bytes differ from the crate's own encoding of the parsed header, or nested protected positions exist; distinct by bytes",
         assumptions: &["positions: body, signers, recipients (depth <= 3), counter-signatures (recursively), SuppPubInfo"],
         exhaustive_domains: &[],
